@@ -22,8 +22,8 @@ MC = {
     ("C01", "thorough"): ["MC_C01_quick", "MC_C01_reent", "MC_C01_thorough"],
     ("C02", "quick"): ["MC_C02_quick", "MC_C02_other", "MC_C02_adder"],
     ("C02", "thorough"): ["MC_C02_quick", "MC_C02_other", "MC_C02_adder", "MC_C02_names", "MC_C02_thorough"],
-    ("C03", "quick"): ["MC_C03_quick"],
-    ("C03", "thorough"): ["MC_C03_quick", "MC_C03_thorough"],
+    ("C03", "quick"): ["MC_C03_quick", "MC_C03_closer"],
+    ("C03", "thorough"): ["MC_C03_quick", "MC_C03_closer", "MC_C03_thorough"],
 }
 DEVS = {"C01": [], "C02": ["Dev_c02_cb_leak", "Dev_c02_skip"], "C03": ["Dev_c03_stuck"]}
 PROBES = {"C01": [], "C02": ["Probe_ProbeEventDuringCb", "Probe_ProbeSelfRemoval"], "C03": ["Probe_ProbeLossMidBlock"]}
